@@ -783,6 +783,11 @@ Lemma both_kind_settled k l r tl tr :
   both_kind k l r = rkind_eqb (kind_of_ty tl) k && rkind_eqb (kind_of_ty tr) k.
 Proof. unfold both_kind. intros -> ->. reflexivity. Qed.
 
+Lemma is_number_num k : is_number (TNum k) = true.
+Proof. unfold is_number, is_integer, is_floatt. cbn. destruct (is_float k); reflexivity. Qed.
+Lemma is_integer_num k : is_integer (TNum k) = negb (is_float k).
+Proof. reflexivity. Qed.
+
 Section Main.
 Variable c : cconfig.
 Variable perm : TypesTable.table -> TypesTable.table.
@@ -836,7 +841,7 @@ Proof.
     | |- context [match ?b with BiLen => _ | _ => _ end] => destruct b
     | |- context [match ?l with [] => _ | _ :: _ => _ end] => destruct l
     end;
-    intros H; inversion H; subst; apply settle_kind.
+    intros H; inversion H; subst; first [apply settle_kind | reflexivity].
 Qed.
 
 (* ---- literals ---- *)
@@ -858,7 +863,7 @@ Proof. intros cols t e' H _ ctx _ s. cbn in H. inversion H; subst. cbn. apply ty
 (* ---- identifiers: the types table against Go's selector rule (C16) ---- *)
 Lemma env_T : T = TStruct sn \/ T = TPtr (TStruct sn).
 Proof.
-  destruct Henv as [Hs _ _ _]. destruct T; cbn in Hs; try discriminate.
+  pose proof (eo_struct _ _ _ _ _ _ Henv) as Hs. destruct T as [| | | | | | | |t| | |]; cbn in Hs; try discriminate.
   - inversion Hs. auto.
   - destruct t; try discriminate. inversion Hs. auto.
 Qed.
@@ -882,11 +887,35 @@ Proof.
   destruct (emit (loc_of (EIdent a name ns)) (ident_rule c name ns) None) as [t1 st1] eqn:Ee.
   inversion H; subst. destruct (emit_none _ _ _ _ Ee) as [_ Er].
   cbn [scope] in Hs. unfold sc_ident, lookup_name in Hs. unfold ident_rule in Er.
-  destruct Henv as [_ (tb & Htb & Hc) (p & fields & -> & HT) Hw].
-  rewrite Htb in Hs, Er. destruct (tget name tb) as [tg|] eqn:Hg; [|discriminate].
+  destruct (eo_table _ _ _ _ _ _ Henv) as (tb & Htb & Hc).
+  destruct (eo_val _ _ _ _ _ _ Henv) as (p & fields & Eenv & HT). pose proof (eo_wf _ _ _ _ _ _ Henv) as Hw.
+  rewrite Eenv in Hw. rewrite Htb in Hs, Er. destruct (tget name tb) as [tg|] eqn:Hg; [|discriminate].
   apply andb_prop in Hs. destruct Hs as [Ha Hm]. apply negb_true_iff in Ha, Hm. rewrite Ha in Er.
   inversion Er; subst t.
   destruct (table_field tb name tg Htb Hc Hg Ha Hm) as [pth R].
   destruct (fetch_member te ftab sn p fields name pth (tg_ty tg) ns Hw R) as (x & Ef & Hx).
-  cbn [settle set_ann eval]. unfold fetch_ident. rewrite Hmap, Ef. cbn. exact Hx.
+  cbn [settle set_ann eval]. unfold fetch_ident. rewrite Hmap, Eenv, Ef. cbn. exact Hx.
+Qed.
+
+(* ---- unary ---- *)
+Lemma sound_unary a op x : sound_at x -> sound_at (EUnary a op x).
+Proof.
+  intros IH cols t e' H Hs ctx Hc s. cbn [visit] in H.
+  destruct (visit c cols x None) as [[tx x'] st1] eqn:Ex.
+  destruct (emit (loc_of (EUnary a op x)) (unary_rule op tx) st1) as [t1 st2] eqn:Ee.
+  inversion H; subst. destruct (emit_none _ _ _ _ Ee) as [-> Er].
+  cbn [scope] in Hs. unfold tyof in Hs. rewrite Ex in Hs. cbn [fst] in Hs.
+  apply andb_prop in Hs. destruct Hs as [Hsx Hso].
+  cbn [settle set_ann]. rewrite sv_unary. eapply res_bind; [exact (IH _ _ _ Ex Hsx ctx Hc s)|].
+  intros v s1 Hv. destruct op; cbn [sc_unary] in Hso; try discriminate.
+  - apply s_bool_inv in Hso. subst tx. cbn in Er. inversion Er; subst.
+    destruct (inv_bool _ _ _ Hv) as [b ->]. cbn. apply ty_bool.
+  - apply s_bool_inv in Hso. subst tx. cbn in Er. inversion Er; subst.
+    destruct (inv_bool _ _ _ Hv) as [b ->]. cbn. apply ty_bool.
+  - destruct (s_num_inv _ Hso) as [k ->]. cbn [unary_rule] in Er. rewrite is_number_num in Er. inversion Er; subst t.
+    exact Hv.
+  - destruct (s_num_inv _ Hso) as [k ->]. cbn [unary_rule] in Er. rewrite is_number_num in Er. inversion Er; subst t.
+    destruct (inv_num _ _ _ _ Hv) as (n & -> & Kn & Sn). cbn.
+    replace k with (num_kind (go_neg n)) by (destruct n; exact Kn).
+    apply ty_num. destruct n; exact Sn.
 Qed.
